@@ -96,8 +96,13 @@ func isJsonString(val string) bool {
 		return false
 	}
 	s := val[c]
-	e := val[len(val)-1] //FIXME: may need exist blank
-	return (s == '{' && e == '}') || (s == '[' && e == ']') || (s == '"' && e == '"')
+	// the value may be followed by blanks (a body ending with a newline)
+	end := len(val) - 1
+	for end > c && (val[end] == ' ' || val[end] == '\n' || val[end] == '\r' || val[end] == '\t') {
+		end--
+	}
+	e := val[end]
+	return end > c && ((s == '{' && e == '}') || (s == '[' && e == ']') || (s == '"' && e == '"'))
 }
 
 func (self *BinaryConv) writeStringValue(ctx context.Context, buf *[]byte, f *thrift.FieldDescriptor, val string, enc meta.Encoding, req http.RequestGetter) error {
